@@ -90,7 +90,7 @@ func c18Template(r *R) string {
 	n := r.Range(2, 7)
 	dump := func(e string) string { return "\x01{{ " + e + "|json_encode }}\x02" }
 	for i := 0; i < n; i++ {
-		switch r.N(17) {
+		switch r.N(18) {
 		case 0, 1:
 			l, f := listAndFilter(r)
 			sb.WriteString("{{ " + l + "|" + f + "|json_encode }};")
@@ -127,6 +127,10 @@ func c18Template(r *R) string {
 				l, f = listAndFilter(r)
 			}
 			sb.WriteString("{{ " + l + "|" + f + "|" + pick(r, c18SeqFilters) + "|json_encode }};")
+		case 16:
+			// struct VALUES with a pointer-receiver method that writes to its receiver (a memoising getter): the
+			// engine must call it on a private copy, never on the caller's element
+			sb.WriteString("{% for c in counters %}{{ c.Next }}{{ c.Label }}{% endfor %}{{ counters|first|json_encode }}{% set lc = counters|last %}{{ lc.Next }};")
 		case 15:
 			// an import alias that collides with a map the caller (or the engine) owns
 			sb.WriteString("{% import 'lib18' as " + pick(r, []string{"ui", "gcfg", "ui2"}) + " %}{{ " + pick(r, []string{"ui", "gcfg"}) + "|keys|length }};{% from 'lib18' import f as ff %}{{ ff(1) }};")
@@ -156,6 +160,7 @@ func (propC18) Gen(seed uint64, ex map[string]bool) interface{} {
 	ctx.M = append(ctx.M,
 		KV{"nums", &Val{T: "list", L: []*Val{i(5), i(3), i(9), i(1), i(7)}}},
 		KV{"si", &Val{T: "simap", M: []KV{{"one", i(1)}, {"two", i(2)}, {"three", i(3)}}}},
+		KV{"counters", &Val{T: "counters", L: []*Val{i(1), i(5), i(9)}}},
 		KV{"ui", &Val{T: "map", M: []KV{{"theme", s("dark")}}}}, // only ever used as an import alias and for |keys|length: a module map must not be printed (its macro objects print as addresses)
 		KV{"cfg", &Val{T: "map", M: []KV{
 			{"db", &Val{T: "anymap", M: []KV{{"host", s("h")}, {"port", i(5432)}, {"opts", &Val{T: "anymap", M: []KV{{"ssl", &Val{T: "bool", B: true}}}}}}}},
@@ -271,6 +276,8 @@ func (propC18) Run(scI interface{}) *Outcome {
 	func() {
 		w.EnterPristine()
 		defer w.LeavePristine()
+		coldGlobals := twig.VerifSwapGlobals(nil) // do not warm process-wide caches for the run under test
+		defer twig.VerifSwapGlobals(coldGlobals)
 		for i, src := range sc.Templates {
 			pe := twig.New()
 			installGlobals(pe)
